@@ -465,8 +465,22 @@ func runC16(b *mon.B) {
 				}
 			} else {
 				outcome = "ok"
-				got := <-lo.Config()
-				want := <-fresh.Config()
+				// both loaders publish before they return (buffered channel of one)
+				var got, want config.ServerConfig
+				select {
+				case got = <-lo.Config():
+				default:
+					b.Violate(caseNo, fmt.Sprintf("C16/%s/accepted-load-never-published", format), fmt.Sprintf("%s loader, step %d (%s): the load returned nil but no configuration was published; a fresh loader publishes one for the same document", format, step, d.Edit), wit())
+					bad = true
+				}
+				select {
+				case want = <-fresh.Config():
+				default:
+					bad = true
+				}
+				if bad {
+					break
+				}
 				if canon(got) != canon(want) {
 					w := wit()
 					w["reloaded"] = clip(canon(got))
